@@ -79,9 +79,30 @@ func genC10Heavy(t *rapid.T) c10Case {
 	return c
 }
 
+// genC10Burst: some hundred goroutines that all validate from profile text at the same moment (a service taking a
+// burst of requests). Every call returns, and returns what it returns alone.
+func genC10Burst(t *rapid.T) c10Case {
+	var c c10Case
+	text, graphs, _ := genProfileAndGraphs(t, "c10-burst", 1)
+	c.Profiles = []string{text}
+	c.Docs = []string{graphs[0].JSONLD(m.LDOpts{}), "[]"}
+	for i := 0; i < 3; i++ {
+		c.Configs = append(c.Configs, genRepCfg(t, fmt.Sprintf("cfg%d", i)))
+	}
+	c.MaxProcs = 16
+	n := rapid.SampledFrom([]int{70, 96, 130}).Draw(t, "burst")
+	for g := 0; g < n; g++ {
+		c.Goroutines = append(c.Goroutines, []c10Op{{Kind: pick(t, []string{"Validate", "Validate", "ValidateWithConfiguration"}, "kind"), Profile: 0, Doc: g % 2, Cfg: g % 3}})
+	}
+	return c
+}
+
 func genC10(t *rapid.T) c10Case {
-	if rapid.IntRange(0, 15).Draw(t, "heavy") == 0 {
+	switch rapid.IntRange(0, 15).Draw(t, "special") {
+	case 0:
 		return genC10Heavy(t)
+	case 1:
+		return genC10Burst(t)
 	}
 	var c c10Case
 	np := rapid.IntRange(1, 3).Draw(t, "profiles")
@@ -320,7 +341,11 @@ func decideC10(orig c10Case) ev.Verdict {
 				return ev.Violation(sig, "race reported during the SERIAL baseline (background goroutine?):\n%s", trunc(txt, 3000))
 			}
 		}
-		got = concurrent()
+		var returned bool
+		got, returned = returnsInTime("C10", concurrent)
+		if !returned {
+			ev.Abort("C10", "TestC10", orig, ev.Violation("c10-no-return", "%d goroutines released at once have not all returned after %d s (a control computation completes at once): %s", len(c.Goroutines), noReturnSecs(), trunc(describeOps(c), 600)))
+		}
 		if txt, sig := raceReports(); txt != "" {
 			return ev.Violation(sig, "the race detector reported a data race while %d goroutines ran %s\n%s", len(c.Goroutines), describeOps(c), trunc(txt, 4000))
 		}
